@@ -30,11 +30,29 @@ pub fn call(id: &str, args: &[Arg]) -> String {
     }
 }
 
+/// Call with a timeout (used by generators and searches); a timed-out call leaks its thread.
+pub fn call_timeout(id: &str, args: &[Arg], ms: u64) -> String {
+    let (tx, rx) = std::sync::mpsc::channel();
+    let id2 = id.to_string();
+    let a2 = args.to_vec();
+    std::thread::spawn(move || {
+        let r = call(&id2, &a2);
+        let _ = tx.send(r);
+    });
+    match rx.recv_timeout(std::time::Duration::from_millis(ms)) {
+        Ok(r) => r,
+        Err(_) => {
+            HANGS.lock().unwrap().push(format!("{} {}", id, args.iter().map(|x| x.render()).collect::<Vec<_>>().join(" ")));
+            "hang".to_string()
+        }
+    }
+}
+pub static HANGS: std::sync::Mutex<Vec<String>> = std::sync::Mutex::new(Vec::new());
+
 fn run_impl() {
     std::panic::set_hook(Box::new(|_| {}));
     let stdin = std::io::stdin();
-    let stdout = std::io::stdout();
-    let mut out = std::io::BufWriter::new(stdout.lock());
+    let mut out = std::io::BufWriter::new(std::io::stdout());
     // watchdog: if one request runs for more than WATCHDOG_S seconds, report `hang` and exit(3);
     // the orchestrator restarts us after that line.
     let started = Arc::new(AtomicU64::new(0));
